@@ -60,6 +60,8 @@ INPUTS = {
     "lt_last": ("CREATE TABLE t (a int, m MAP<STRING, INT>);\nSELECT a FROM t WHERE a < 5 AND f(b;", {}),
     # statements aimed at tables that other inputs define ("t", "s.t"): alone these raise ValueError
     "nosemi": ("CREATE TABLE hr.e (a int, b varchar(5))\nCREATE TABLE hr.f (c int)\nCREATE SEQUENCE hr.q START 1", {}),
+    # foreign-key columns the table does not declare (they are appended by the ALTER): their order must not depend on hashing
+    "fk_undecl": ("CREATE TABLE t (a int);\nALTER TABLE t ADD CONSTRAINT f FOREIGN KEY (x1, y2, z3, w4) REFERENCES o (p, q, r, s);", {}),
     "alter_only": ("ALTER TABLE t ADD CONSTRAINT u9 UNIQUE (a);\nCREATE INDEX i9 ON t (a);", {}),
     "alter_only_s": ("ALTER TABLE s.t ADD COLUMN z int;", {}),
 }
@@ -103,7 +105,7 @@ def gen_cases(tier):
     seeds = sorted({0, 1, 2, 3, int(os.environ.get("VERIF_SEED") or 0) % 4294967295})
     for nme in names:
         for sd in seeds:
-            cases.append({"kind": "seed", "heavy": True, "input": nme, "hashseed": sd, "regen": tier == "thorough" or nme in ("trail_cmt", "alter")})
+            cases.append({"kind": "seed", "heavy": True, "input": nme, "hashseed": sd, "regen": tier == "thorough" or nme in ("trail_cmt", "alter", "fk_undecl")})
     return cases
 
 
